@@ -354,6 +354,11 @@ func runMacro() {
 		jobs = append(jobs, jobsFor(sigmaDM, 0, 2, hdr, "\x1e", constLevel(lvStream), "macro"+m+"-half-trailer", 5000)...)
 	}
 	jobs = append(jobs, jobsFor(sigmaDM, 0, 2, "", "\x1e\x04", constLevel(lvStream), "trailer-only", 5000)...)
+	// bodies made of the envelope's OWN characters (RS, EOT, GS) and two ordinary ones: a body that
+	// ends in RS or EOT, contains the trailer, or repeats the header's separators
+	for _, m := range []string{"05", "06"} {
+		jobs = append(jobs, jobsFor([]string{"A", "1", "\x1e", "\x04", "\x1d"}, 0, 4, "[)>\x1e"+m+"\x1d", "\x1e\x04", constLevel(lvMatrix), "macro"+m+"-separator-body", 5000)...)
+	}
 	// the trailer characters RS EOT at the end of a text that is NOT a macro (no header), behind runs
 	// that leave the encoder in X12, C40, Text or EDIFACT with zero, one or two codewords of the
 	// symbol free: every run length 3..45 of four run characters x every string of length 0..3 over
@@ -380,7 +385,7 @@ func runMacro() {
 			jobs = append(jobs, jobsFor(sigmaDM, 0, 1, hdr+strings.Repeat("42", k), "\x1e\x04", constLevel(lvStream), fmt.Sprintf("macro%s-digits-%d", m, 2*k), 5000)...)
 		}
 	}
-	runJobs("(d) macro 05/06 envelope around every string of length 0..3 over Sigma_DM (all levels), the near-miss envelopes around length 0..2, the trailer characters without header behind X12 / C40 / Text / EDIFACT runs of every length 3..45 + every string of length 0..3 over {1,2,*,A}, and long digit bodies (2k digits, k in {1047,1048,1303,1304,1555..1558}: filling 120x120, 132x132 and 144x144 exactly, one pair less and more) followed by every string of length 0..1", jobs)
+	runJobs("(d) macro 05/06 envelope around every string of length 0..3 over Sigma_DM (all levels) and of length 0..4 over {A, 1, RS, EOT, GS}, the near-miss envelopes around length 0..2, the trailer characters without header behind X12 / C40 / Text / EDIFACT runs of every length 3..45 + every string of length 0..3 over {1,2,*,A}, and long digit bodies (2k digits, k in {1047,1048,1303,1304,1555..1558}: filling 120x120, 132x132 and 144x144 exactly, one pair less and more) followed by every string of length 0..1", jobs)
 }
 
 // ------------------------------------------------------------------ (e) not ISO-8859-1
